@@ -188,8 +188,19 @@ def rule_e(ctx):
                                "why": "after a failed CAS the head may have been taken by a nested/concurrent operation; returning the old head hands one index to two owners"})
 
 
+def rule_f(ctx):
+    """index ownership (the anchor of the no-panic argument): an index is in exactly one of the empty queue, the full queue, or one in-flight
+    operation — the slot-index typestate of C07.a, reported under this property too"""
+    from .C07 import rule_a as typestate
+    from .C18 import _Alias
+    ctx.rule("C08.f", "index ownership: every cell access uses an index obtained by a successful take, nothing touches the cell after the index was "
+                      "handed back, and the same index goes to the other queue on every path (shared with C07.a)", floor=7)
+    typestate(_Alias(ctx, "C08.f"))
+
+
 def run(ctx):
     from .. import fixtures
+    ctx.guarded("C08.f", rule_f)
     ctx.guarded("C08.FX", lambda c: fixtures.run(c, ['effects', 'loops']))
     ctx.guarded("C08.e", rule_e)
     cone = ctx.guarded("C08.a", rule_a)
